@@ -32,7 +32,7 @@ func init() {
 			}
 			return c.Add(sexp.A("duration"), sexp.U(math.Float64bits(x)))
 		case "timing":
-			x := []float64{0, 0.02, 0.05, 0.1, 0.03, 0.075, 0.5, 2, 1e10, 12345678901.5, 1e12, -1, 0.001, 1e-9}[r.Intn(14)]
+			x := []float64{0, 0.02, 0.05, 0.1, 0.03, 0.075, 0.5, 2, 1e10, 12345678901.5, 1e12, -1, 0.001, 1e-9, 0.0009, 0.0005, 0.00099, 0.0021}[r.Intn(18)]
 			return c.Add(sexp.A("timing"), sexp.U(math.Float64bits(x)))
 		case "shape":
 			shape := []string{"noret", "err", "chan", "recvchan", "namedchan", "nilchan", "raw"}[r.Intn(7)]
